@@ -43,7 +43,7 @@ def run(cmd, **kw):
 # ---------------------------------------------------------------- extraction
 TRANSLATE_STATUS = (True, 'not run')
 WIRE_STATUS = (True, 'not run')
-WIRE_PROPS = ('C01', 'C02', 'C03', 'C04', 'C05', 'C06', 'C07', 'C08', 'C11')      # properties whose <prop>T module is about Generated/TranslatedWire.lean (tools/c2lean_wire.py)
+WIRE_PROPS = ('C01', 'C02', 'C03', 'C04', 'C05', 'C06', 'C07', 'C08', 'C10', 'C11')      # properties whose <prop>T module is about Generated/TranslatedWire.lean (tools/c2lean_wire.py)
 
 
 # which translated functions a property's <prop>T module is about: a function of another group leaving the subset is not this
@@ -61,7 +61,7 @@ WIRE_FUNCS = {
     'C03': W_ENDIAN + W_HDR + W_HELLO,
     'C04': W_ENDIAN + W_HDR + W_HELLO + WIRE_LINUX,
     'C05': ('mapper_matches', 'set_active_mapper', 'compareEthernetAddress'),
-    'C06': W_ENDIAN + W_HDR, 'C07': W_ENDIAN + W_HDR, 'C08': W_ENDIAN + W_HDR,
+    'C06': W_ENDIAN + W_HDR, 'C07': W_ENDIAN + W_HDR, 'C08': W_ENDIAN + W_HDR, 'C10': W_ENDIAN + W_HDR,
     'C11': W_ENDIAN + ('derive_session_event', 'mac_equal'),
 }
 WIRE_FAILED = {}
